@@ -148,7 +148,7 @@ def h_file(X, tier):
 
 def obligations(tier):
     q = tier == "quick"
-    bud = 400 if q else 2400
+    bud = 1800 if q else 7200
     return [
         Symx("kernel-truncation", h_kernel,
              bounds="27 menu values (every type tag, nesting <= 3, records that look like prefixes) + bytes/str/list payloads of length 8-11 and 98-101; "
